@@ -32,6 +32,7 @@ type fltEnv struct {
 	tbad        *Peer // TLS origin, certificate of an unknown CA (badcert.test)
 	tgarbage    *Peer // answers the TLS hello with an HTTP error in clear (garbage.test)
 	teof        *Peer // closes as soon as the TLS hello arrives       (eof.test)
+	thostile    []*Peer // answer the TLS hello with hostileTLSReplies[i]   (hostile-<i>.test)
 	upstream    *Peer // HTTP proxy: scripted replies to absolute-form, CONNECT: reject-<code>.test or tunnel
 	refused     string
 	proxies     map[string]*ProxyInst
@@ -68,8 +69,30 @@ func (e *fltEnv) resolve(target string) string {
 	case "refused.test":
 		return e.refused
 	}
+	if rest, ok := strings.CutPrefix(strings.ToLower(h), "hostile-"); ok {
+		if i, err := strconv.Atoi(strings.TrimSuffix(rest, ".test")); err == nil && i >= 0 && i < len(e.thostile) {
+			return e.thostile[i].Addr
+		}
+	}
 	_ = p
 	return target
+}
+
+// hostileTLSReplies: what a peer may send instead of a ServerHello - records that look like TLS and are not a handshake
+// the client can continue (crypto/tls reports several of them through different error types).
+var hostileTLSReplies = [][]byte{
+	{0x16, 0x03, 0x03, 0xff, 0xff, 0x02, 0x00},                                     // handshake record announcing 65535 bytes
+	append([]byte{0x16, 0x03, 0x03, 0x00, 0x05}, 0xde, 0xad, 0xbe, 0xef, 0x00),     // handshake record with an unknown message
+	{0x15, 0x03, 0x03, 0x00, 0x02, 0x02, 0x28},                                     // fatal alert handshake_failure
+	{0x15, 0x03, 0x03, 0x00, 0x02, 0x01, 0x00},                                     // warning alert close_notify
+	append([]byte{0x17, 0x03, 0x03, 0x00, 0x08}, 1, 2, 3, 4, 5, 6, 7, 8),           // application data before any handshake
+	{0x16, 0x03, 0x00, 0x00, 0x04, 0x0e, 0x00, 0x00, 0x00},                         // SSL 3.0 record, ServerHelloDone out of order
+	{0x16, 0x7f, 0x7f, 0x40, 0x01, 0x00},                                           // unknown version, oversized
+	{0x16, 0x03, 0x03, 0x00, 0x04, 0x0e, 0x00, 0x00, 0x00, 0x16, 0x03, 0x01, 0x00}, // out-of-order message, then a record of another version, cut
+	{0x14, 0x03, 0x03, 0x00, 0x01, 0x01},                                           // change_cipher_spec first
+	{0x16, 0x03, 0x03, 0x00, 0x00},                                                 // empty handshake record
+	{0x16, 0x03, 0x03, 0x48, 0x01},                                                 // announces 18433 bytes (one over the limit), nothing follows
+	{0x80, 0x2e, 0x04, 0x00, 0x01},                                                 // SSLv2-style header
 }
 
 func getFlt() (*fltEnv, error) {
@@ -93,6 +116,15 @@ func getFlt() (*fltEnv, error) {
 			pc.SetReadDeadline(time.Now().Add(5 * time.Second))
 			pc.Br.Peek(1)
 		}))
+		for i := range hostileTLSReplies {
+			reply := hostileTLSReplies[i]
+			e.thostile = append(e.thostile, must(StartPeer(fmt.Sprintf("thostile%d", i), "127.0.0.8", nil, func(pc *PeerConn) {
+				pc.SetReadDeadline(time.Now().Add(5 * time.Second))
+				pc.Br.Peek(1)
+				pc.Write(reply)
+				time.Sleep(20 * time.Millisecond)
+			})))
+		}
 		tunnel := TunnelTo(e.resolve)
 		e.upstream = must(StartPeer("upstream", "127.0.0.4", nil, HTTPHandler(scriptedResponder, func(pc *PeerConn, r *RecordedReq) {
 			h, _, _ := net.SplitHostPort(r.Msg.Target)
@@ -116,7 +148,11 @@ func getFlt() (*fltEnv, error) {
 			}
 		}
 		var rules []string
-		for _, n := range []string{"origin.test", "tls.test", "badcert.test", "garbage.test", "eof.test", "refused.test"} {
+		names := []string{"origin.test", "tls.test", "badcert.test", "garbage.test", "eof.test", "refused.test"}
+		for i := range hostileTLSReplies {
+			names = append(names, fmt.Sprintf("hostile-%d.test", i))
+		}
+		for _, n := range names {
 			a := e.resolve(n + ":1")
 			h, p, _ := net.SplitHostPort(a)
 			rules = append(rules, n+"::"+h+":"+p)
@@ -162,6 +198,7 @@ type FltExch struct {
 	Fault  string  `json:"fault"`  // none | refused | dial-timeout | tls-garbage | tls-eof | tls-badcert | upstream-reject | cut | rst | bad-status | bad-chunk | dup-cl | deadup
 	K      int     `json:"k"`      // cut / rst: bytes of the raw reply sent before the fault (-1: in the middle of the body, -2: one byte short)
 	Code   int     `json:"code,omitempty"`
+	Var    int     `json:"var,omitempty"` // tls-hostile: index into hostileTLSReplies
 	Resp   FltResp `json:"resp"`
 	Follow bool    `json:"follow"` // after a complete reply on a connection left open, send a second, fault-free request
 }
@@ -195,13 +232,16 @@ func genFltExch(t *rapid.T) FltExch {
 	case x.Route == "direct":
 		faults = []string{"none", "refused", "dial-timeout", "cut", "cut", "cut", "rst", "rst", "bad-status", "bad-chunk", "dup-cl"}
 	case x.Route == "mitm":
-		faults = []string{"none", "refused", "dial-timeout", "tls-garbage", "tls-eof", "tls-badcert", "cut", "cut", "rst", "bad-status", "bad-chunk"}
+		faults = []string{"none", "refused", "dial-timeout", "tls-garbage", "tls-hostile", "tls-hostile", "tls-eof", "tls-badcert", "cut", "cut", "rst", "bad-status", "bad-chunk"}
 	case x.Route == "upstream":
 		faults = []string{"none", "cut", "cut", "rst", "bad-status", "bad-chunk", "dup-cl"}
 	case x.Route == "mitm-upstream":
 		faults = []string{"none", "upstream-reject", "upstream-reject", "upstream-reject", "cut", "rst"}
 	}
 	x.Fault = rapid.SampledFrom(faults).Draw(t, "fault")
+	if x.Fault == "tls-hostile" {
+		x.Var = rapid.IntRange(0, len(hostileTLSReplies)-1).Draw(t, "hostilereply")
+	}
 	if x.Fault == "cut" || x.Fault == "rst" {
 		switch rapid.IntRange(0, 5).Draw(t, "kkind") {
 		case 0:
@@ -266,6 +306,8 @@ func fltHost(x FltExch) string {
 		return "timeout.test:81"
 	case "tls-garbage":
 		return "garbage.test:443"
+	case "tls-hostile":
+		return fmt.Sprintf("hostile-%d.test:443", x.Var)
 	case "tls-eof":
 		return "eof.test:443"
 	case "tls-badcert":
@@ -462,7 +504,11 @@ func judgeFlt(x FltExch, o fltOutcome) (fails []vstat.Failure) {
 	if x.Fault == "upstream-reject" && x.Route == "mitm-upstream" {
 		shape = "transport-connect-rejected:"
 	}
-	key := func(clause string) string { return "C12:" + shape + x.Route + ":" + x.Fault + ":" + clause }
+	fault := x.Fault
+	if fault == "tls-hostile" {
+		fault += fmt.Sprintf("-%d", x.Var)
+	}
+	key := func(clause string) string { return "C12:" + shape + x.Route + ":" + fault + ":" + clause }
 	desc := fmt.Sprintf("%+v -> %s", x, o.kind)
 	if o.msg != nil {
 		desc += fmt.Sprintf(" (start line %q, fields %v, %d body bytes, framing %s)", o.msg.StartLine, o.msg.Fields, len(o.msg.Body), o.msg.Framing)
@@ -492,6 +538,12 @@ func judgeFlt(x FltExch, o fltOutcome) (fails []vstat.Failure) {
 		wantExact = 502
 	case "tls-garbage", "tls-badcert":
 		wantExact = 502
+	case "tls-hostile":
+		// a close_notify in place of the ServerHello is an orderly end of the stream: crypto/tls reports io.EOF,
+		// which - like the peer that just closes (tls-eof) - cannot be told from other failures: any 5xx
+		if x.Var != 3 {
+			wantExact = 502
+		}
 	case "dial-timeout":
 		wantExact = 504
 	}
@@ -535,7 +587,7 @@ func judgeFlt(x FltExch, o fltOutcome) (fails []vstat.Failure) {
 			} else if x.Method != "HEAD" && string(m.Body) != want {
 				fails = append(fails, vstat.Failf(key("reject-body"), "upstream's reply body %q arrived as %q: %s", want, m.Body, desc))
 			}
-		case "refused", "dial-timeout", "tls-garbage", "tls-eof", "tls-badcert", "deadup", "bad-status", "dup-cl":
+		case "refused", "dial-timeout", "tls-garbage", "tls-hostile", "tls-eof", "tls-badcert", "deadup", "bad-status", "dup-cl":
 			fails = append(fails, vstat.Failf(key("no-forwarder-error"), "a complete reply without X-Forwarder-Error although no origin reply exists: %s", desc))
 		default:
 			// none / cut / rst / bad-chunk: a complete relayed reply must be the whole intended reply
